@@ -177,9 +177,24 @@ Fixpoint flats_eqb (a b : list val) : bool :=
 (* msgType.New() / AppendMutable(): every slot at its default *)
 Definition fresh (sch : schema) (tm : nat) : val :=
   match get_msg sch tm with Some md => empty_msg md | None => VMsg [] [] end.
+(* ... as it reads back: an unpopulated message, nil and empty containers / byte strings identified *)
+Definition default_like (f : field) (s : val) : bool :=
+  match f_shape f, f_ty f with
+  | Singular, TScalar k => flat_eqb s (zero_scalar k) || (match k, s with KBytes, VBytes [] => true | _, _ => false end)
+  | Singular, TMsg _ => match s with VNil => true | _ => false end
+  | Rep _, _ => match s with VNil | VList [] => true | _ => false end
+  | MapOf _, _ => match s with VNil | VMap [] => true | _ => false end
+  | Member _, _ => match s with VNil => true | _ => false end
+  end.
+Fixpoint defaults_like (fs : list field) (ss : list val) : bool :=
+  match fs, ss with
+  | [], [] => true
+  | f :: fs', s :: ss' => default_like f s && defaults_like fs' ss'
+  | _, _ => false
+  end.
 Definition is_fresh (sch : schema) (tm : nat) (v : val) : bool :=
-  match v, fresh sch tm with
-  | VMsg s u, VMsg s0 _ => is_nilb u && flats_eqb s s0
+  match v, get_msg sch tm with
+  | VMsg s u, Some md => is_nilb u && defaults_like (m_fields md) s
   | _, _ => false
   end.
 
@@ -400,7 +415,9 @@ Section Range.
         match vb with VBytes _ | VNil => true | _ => false end &&
         if has_urls then
           match resolve ann u with
-          | Some tm => any_allowed ic tm && ((2 <=? r)%nat || bytes_empty vb)
+          | Some tm =>
+            any_allowed ic tm &&
+            (if (2 <=? r)%nat then is_ok (pulsar_unmarshal sch false tm VNil (as_bytes vb)) else bytes_empty vb)
           | None => false
           end
         else is_nilb u && bytes_empty vb                  (* genAny returned false: untouched *)
@@ -451,6 +468,147 @@ Fixpoint ann_ok_aux (sch : schema) (ann : annots) : bool :=
   | _, _ => false
   end.
 Definition ann_ok (sch : schema) (ann : annots) : bool := ann_ok_aux sch ann.
+
+(* ---- the model of the code as it stands in /repo (flip a flag when its `fix:` commit lands) ---- *)
+Definition code_variant : variant := current.
+
+(* ---- the validity properties, as families of local predicates for [deep] -------------------- *)
+Definition true_scalar : kind -> list Z -> val -> bool := fun _ _ _ => true.
+Definition true_slot : nat -> N -> field -> fannot -> val -> bool := fun _ _ _ _ _ => true.
+Definition true_msg : nat -> ictx -> mannot -> msgdesc -> list val -> list byte -> bool := fun _ _ _ _ _ _ => true.
+
+(* every string is valid UTF-8 *)
+Definition utf8_preds : preds :=
+  {| p_scalar := fun k _ v => match k with KString => match v with VBytes l => utf8_valid l | _ => false end | _ => true end;
+     p_slot := true_slot; p_msg := true_msg |}.
+(* timestamppb / durationpb CheckValid *)
+Definition ts_valid (s n : Z) : bool :=
+  ((-62135596800 <=? s) && (s <=? 253402300799) && (0 <=? n) && (n <? 1000000000))%Z.
+Definition dur_valid (s n : Z) : bool :=
+  ((-315576000000 <=? s) && (s <=? 315576000000) && (-1000000000 <? n) && (n <? 1000000000) &&
+   (implb (0 <? s) (0 <=? n)) && (implb (s <? 0) (n <=? 0)))%Z.
+Definition timestamp_preds : preds :=
+  {| p_scalar := true_scalar; p_slot := true_slot;
+     p_msg := fun _ _ ma _ slots _ =>
+       match a_wkt ma with
+       | WTimestamp => match slots with [VInt s; VInt n] => ts_valid s n | _ => false end
+       | _ => true
+       end |}.
+Definition duration_preds : preds :=
+  {| p_scalar := true_scalar; p_slot := true_slot;
+     p_msg := fun _ _ ma _ slots _ =>
+       match a_wkt ma with
+       | WDuration => match slots with [VInt s; VInt n] => dur_valid s n | _ => false end
+       | _ => true
+       end |}.
+(* every Any names a message type of the schema that the options offer, and its value decodes as it *)
+Definition any_preds (o : gopts) (sch : schema) (ann : annots) : preds :=
+  {| p_scalar := true_scalar; p_slot := true_slot;
+     p_msg := fun _ ic ma _ slots _ =>
+       match a_wkt ma with
+       | WAny =>
+         match slots with
+         | [VBytes u; vb] =>
+           match resolve ann u with
+           | Some tm =>
+             (existsb (Nat.eqb tm) (o_any o) || existsb (fun h => match h with Some t => Nat.eqb t tm | None => false end) (o_hints o))
+             && is_ok (pulsar_unmarshal sch false tm VNil (as_bytes vb))
+           | None => false
+           end
+         | _ => false
+         end
+       | _ => true
+       end |}.
+(* every FieldMask carries 1..5 paths of the drawn shape *)
+Definition fieldmask_preds : preds :=
+  {| p_scalar := true_scalar; p_slot := true_slot;
+     p_msg := fun _ _ ma _ slots _ =>
+       match a_wkt ma with
+       | WFieldMask =>
+         match slots with
+         | [VList l] => (1 <=? N.of_nat (length l)) && (N.of_nat (length l) <=? 5) &&
+                        forallb (fun e => match e with VBytes b => fm_path_ok b | _ => false end) l
+         | _ => false
+         end
+       | _ => true
+       end |}.
+(* every enum field holds a number its enum declares *)
+Definition enum_preds : preds :=
+  {| p_scalar := fun k decl v => match k with KEnum => match v with VInt z => declared decl z | _ => false end | _ => true end;
+     p_slot := true_slot; p_msg := true_msg |}.
+(* NoEmptyLists: a list that is generated (always for scalar lists; for message lists when the field is
+   not left alone and its elements are within the nesting limit) is not empty *)
+Definition nonempty_slot (s : val) : bool := match s with VList (_ :: _) => true | _ => false end.
+Definition no_empty_preds (vr : variant) (o : gopts) (ann : annots) : preds :=
+  {| p_scalar := true_scalar;
+     p_slot := fun r _ f _ s =>
+       if o_no_empty o then
+         match f_shape f, f_ty f with
+         | Rep _, TScalar _ => nonempty_slot s
+         | Rep _, TMsg tm => if forced o f && child_ok_container vr o ann r tm then nonempty_slot s else true
+         | _, _ => true
+         end
+       else true;
+     p_msg := true_msg |}.
+(* DisallowNilMessages: a singular message field whose message can be generated is set *)
+Definition disallow_nil_preds (o : gopts) (ann : annots) : preds :=
+  {| p_scalar := true_scalar;
+     p_slot := fun r _ f _ s =>
+       if o_disallow_nil o then
+         match f_shape f, f_ty f with
+         | Singular, TMsg tm => if child_ok_singular o ann r tm then is_msgv s else true
+         | _, _ => true
+         end
+       else true;
+     p_msg := true_msg |}.
+(* no nil message inside a list, a map or a oneof wrapper, whatever the options *)
+Definition no_nil_elem_preds : preds :=
+  {| p_scalar := true_scalar;
+     p_slot := fun _ _ f _ s =>
+       match f_ty f with
+       | TScalar _ => true
+       | TMsg _ =>
+         match f_shape f, s with
+         | Rep _, VList l => forallb is_msgv l
+         | MapOf _, VMap kvs => forallb (fun kv => is_msgv (snd kv)) kvs
+         | Member _, VSome p => is_msgv p
+         | _, _ => true
+         end
+       end;
+     p_msg := true_msg |}.
+(* a FieldMapper that always answers is always obeyed *)
+Definition mapper_preds (o : gopts) : preds :=
+  {| p_scalar := fun k decl v => match o_fmap o k decl with FmAlways p _ => p v | _ => true end;
+     p_slot := true_slot; p_msg := true_msg |}.
+
+(* the field mappers the runner uses (harness/cmd/runner/rapideng.go fieldMapper) *)
+Definition mapped_strings : list (list byte) :=
+  [ [x6d; x61; x70; x70; x65; x64; x2d; x61]; [x6d; x61; x70; x70; x65; x64; x2d; x62];
+    [x6d; x61; x70; x70; x65; x64; x2d; xc3; xa9] ].
+Definition fmap_of_id (id : nat) (k : kind) (decl : list Z) : fm_spec :=
+  match id with
+  | 1%nat =>
+    match k with
+    | KString => FmAlways (fun v => match v with VBytes b => existsb (beqb b) mapped_strings | _ => false end)
+                          (fun x => VBytes (nth (N.to_nat (x mod 3)) mapped_strings []))
+    | _ => FmNone
+    end
+  | 2%nat =>
+    match k with
+    | KInt32 | KSint32 | KSfixed32 =>
+      FmAlways (fun v => match v with VInt z => ((1 <=? z) && (z <=? 5))%Z | _ => false end)
+               (fun x => VInt (1 + Z.of_N (x mod 5)))
+    | KEnum =>
+      match decl with
+      | [] => FmNone
+      | _ => FmAlways (fun v => match v with VInt z => declared decl z | _ => false end)
+                      (fun x => VInt (nth (N.to_nat (x mod N.of_nat (length decl))) decl 0%Z))
+      end
+    | KUint64 => FmMaybe (fun v => match v with VInt 42 => true | _ => false end) (fun _ => VInt 42)
+    | _ => FmNone
+    end
+  | _ => FmNone
+  end.
 
 (* ================================================================================================
    The generator as a function of a tape of draws
